@@ -9,5 +9,6 @@ def main (args : List String) : IO UInt32 := do
   match args with
   | ["mh"] => Proto.loop stdin stdout DriverMh.step DriverMh.init; return 0
   | ["ng"] => Proto.loop stdin stdout DriverNg.step (); return 0
+  | ["lca"] => Proto.loop stdin stdout DriverLca.step DriverLca.init; return 0
   | ["own"] => Proto.loop stdin stdout DriverOwn.stepLine Own.Heap.empty; return 0
   | _ => IO.eprintln "usage: Main <module>"; return 2
